@@ -85,8 +85,8 @@ def build(env, n1, n2, nvars, idim, kinds):
     if lb:
         coords["b"] = lb
     if idim:
-        coords["t"] = T
-    dv = {"x": (dims + (("t",) if idim else ()), nest_x())}
+        coords["time"] = T
+    dv = {"x": (dims + (("time",) if idim else ()), nest_x())}
     if nvars == 2:
         dv["y"] = (dims, nest_y())
     if env.mode == "sym":
@@ -134,10 +134,10 @@ def body_find(E, n1, n2, nvars, idim, meth, ign, k0, k1, k2, k3, k4, k5, k6, k7,
         if not idim:
             ignore = None
         else:
-            ignore = ["t", "t", {"t"}, None][ign]
+            ignore = ["time", "time", {"time"}, None][ign]
         fn_args, missing = ca.find_missing_cases(ds, ignore_dims=ignore, method=method)
         over_t = idim and ignore is None
-        want_args = ("a",) + (("b",) if lb else ()) + (("t",) if over_t else ())
+        want_args = ("a",) + (("b",) if lb else ()) + (("time",) if over_t else ())
         if tuple(fn_args) != want_args:
             return False
         want = []
@@ -248,7 +248,7 @@ CONDS = (
                 bounds=_B1 + "no internal dimension; meth 0 isnull 1 isfinite")
     + split_conds(_G, "find_ignored", body_find, _SIGF, ["1 <= n1 <= 3 and 0 <= n2 <= 2 and 1 <= ign <= 2", _KR],
                   "meth", [0, 1], fixed=dict(nvars=1, idim=True), timeout=400,
-                  bounds=_B1 + "internal dimension t (2 positions) ignored via 't' or {'t'}: partial nulls along t")
+                  bounds=_B1 + "internal dimension 'time' (2 positions) ignored via 'time' or {'time'}: partial nulls along t")
     + split_conds(_G, "find_over_t", body_find, _SIGF,
                   ["1 <= n1 <= 2 and 0 <= n2 <= 1 and (ign == 0 or ign == 3)", _KR],
                   "meth", [0, 1], fixed=dict(nvars=1, idim=True), timeout=400,
